@@ -215,3 +215,142 @@ func genLongLag(_ *Rand, n int, tier string, w *bufio.Writer) {
 	emit("state 0")
 	emit("state 1")
 }
+
+// `h-cons gen cons-hider <seed> <n>`: dense gossip among all validators but one, whose events stay unknown
+// to the others for a few rounds (and which sees little itself); then it catches up with everybody. Votes
+// about the hidden validator's roots disagree meanwhile, so decisions are delayed and the catching-up
+// event — a root of several frames at once — decides several frames within one Process call, the later
+// ones while the known roots are re-processed. Every epoch is sealed at a low random frame.
+func init() {
+	Register("cons-hider", &Stream{Gen: genHider, NewRunner: func() Runner { return newConsRunner() }})
+}
+
+func genHider(r *Rand, n int, tier string, w *bufio.Writer) {
+	for i := 0; i < n; i++ {
+		fmt.Fprintf(w, "# case hider-%d\n", i)
+		genHiderCase(r, w)
+	}
+}
+
+func genHiderCase(r *Rand, w *bufio.Writer) {
+	gr := newConsRunner()
+	emit := func(format string, a ...interface{}) (res string) {
+		line := fmt.Sprintf(format, a...)
+		fmt.Fprintln(w, line)
+		defer func() {
+			if p := recover(); p != nil {
+				res = "panic"
+			}
+		}()
+		return gr.Step(line)
+	}
+	nv := 4 + r.Intn(2)
+	vals := make([]string, nv)
+	for i := range vals {
+		vals[i] = fmt.Sprintf("%d:1", i+1)
+	}
+	vs := strings.Join(vals, " ")
+	emit("vals %s", vs)
+	const epochs = 3
+	for ep := 1; ep <= epochs; ep++ {
+		emit("seal %d %d %s", ep, 1+r.Intn(4), vs)
+	}
+	emit("inst 0 3")
+	emit("inst 1 1")
+	type head struct{ n, seq, lamport uint64 }
+	next := uint64(1)
+	var all []uint64
+	for epoch := 1; epoch <= epochs; epoch++ {
+		heads := map[int]*head{}
+		visible := map[int]*head{} // what the others know of the hidden validator
+		hidden := r.Intn(nv)
+		sealed := false
+		create := func(self int, ps []*head) {
+			seq, lamport := uint64(1), uint64(1)
+			var pl []string
+			if sp := heads[self]; sp != nil {
+				seq, lamport = sp.seq+1, sp.lamport+1
+				pl = append(pl, fmt.Sprint(sp.n))
+			}
+			for _, p := range ps {
+				if p == nil || (heads[self] != nil && p.n == heads[self].n) {
+					continue
+				}
+				pl = append(pl, fmt.Sprint(p.n))
+				if lamport <= p.lamport {
+					lamport = p.lamport + 1
+				}
+			}
+			pj := strings.Join(pl, ",")
+			if pj == "" {
+				pj = "-"
+			}
+			n := next
+			next++
+			emit("build 0 %d c=%d s=%d l=%d p=%s", n, self+1, seq, lamport, pj)
+			res := emit("process 0 %d", n)
+			all = append(all, n)
+			heads[self] = &head{n, seq, lamport}
+			for _, f := range strings.Fields(res) {
+				if strings.HasPrefix(f, "E=") && int(Atou(f[2:])) > epoch {
+					sealed = true
+				}
+			}
+		}
+		for round := 0; round < 60 && !sealed; round++ {
+			hideRounds := 2 + r.Intn(4)
+			visible[hidden] = heads[hidden]
+			for hr := 0; hr < hideRounds && !sealed; hr++ {
+				for _, self := range r.Perm(nv) {
+					if sealed {
+						break
+					}
+					if self == hidden {
+						if r.Chance(1, 2) {
+							// the hidden validator sees one other head at most
+							var ps []*head
+							if r.Chance(1, 2) {
+								ps = append(ps, heads[(hidden+1+r.Intn(nv-1))%nv])
+							}
+							create(self, ps)
+						}
+						continue
+					}
+					var ps []*head
+					for _, o := range r.Perm(nv) {
+						if o == self || r.Chance(1, 5) {
+							continue
+						}
+						if o == hidden {
+							ps = append(ps, visible[hidden])
+						} else {
+							ps = append(ps, heads[o])
+						}
+					}
+					create(self, ps)
+				}
+			}
+			if sealed {
+				break
+			}
+			// catch up: the hidden validator references every head
+			var ps []*head
+			for o := 0; o < nv; o++ {
+				if o != hidden {
+					ps = append(ps, heads[o])
+				}
+			}
+			create(hidden, ps)
+			if r.Chance(1, 2) {
+				hidden = r.Intn(nv)
+			}
+		}
+	}
+	for _, n := range all {
+		emit("process 1 %d", n)
+	}
+	emit("allblocks 0")
+	emit("allblocks 1")
+	emit("state 0")
+	emit("state 1")
+}
